@@ -20,7 +20,7 @@ CLAIMED = {
    "Histories only - there is no reader, sink or clock in this property; the 'faults' are caller behaviours (values beyond the field width, documented no-effect calls). pts_adjustment is compared only when the command carries a time; ambiguous states after a lone SetUPIDType / SetTypeID are not compared; time-less time_signal / timed splice_insert are encoded but not decoded (library documents them unsupported)."),
  "C10": ("C10 SCTE-35 state tracker", "§4 C10",
    "Discrete-event simulation on a 90 kHz clock: encoder workloads (generated broadcast day with nesting, breakaway/resumption, stream-switch events, PTS wrap; adversarial alphabet) -> optional real transport (packetiser -> accumulator -> decoder) -> scripted channel (drop, duplicate, same-object repeat, late duplicate beyond the ring, reorder) -> tracker, with duration timers calling Close early/late/twice/after close and explicit/unknown Closes; an invariant monitor over public results only is evaluated after every call; complete sweep of all histories of length <=4 over a 9-letter alphabet. Sampling beyond the sweep.",
-   "Trusts CanClose/Equal as the closing rules (C19's subject) and the monitor's reading of 'open' = Open() + pending breakaways; completeness of Open() is not demanded."),
+   "Closed descriptors are judged against a hand transcription of the documented closing-rule table and of descriptor equality (ref/closing.go), not against the library's own CanClose/Equal; trusts that transcription and the monitor's reading of 'open' = Open() + pending breakaways; completeness of Open() is not demanded."),
  "C14": ("C14 PMT filtering as relay stage", "§4 C14",
    "Seeded search over abstract PMTs x packetisation/mux/fragmentation into the real accumulator x PID request shapes (subset, order, absent, duplicated, PAT/PMT PID, empty) -> FilterPMTPacketsToPids -> comparison with the reference serialisation of the restricted PMT (headers, pointer, section_length, CRC, padding), error contract, inputs untouched -> re-mux -> ReadPMT over a second faulty reader; RemoveElementaryStreams/Pids/PIDExists on the decoded PMT. Sampling, not proof.",
    "Trusts the reference serialiser/CRC; elementary PIDs distinct; the overlap of the two error clauses is accepted either way."),
